@@ -38,7 +38,7 @@ def make(prop, obl, detail, ke, ve, kunits, st, tgt, kinfo, vinfo, log, jobs):
         out.append("failed checks: " + "; ".join(ke["obligations_failed"] + ke["safety_failed"] + ke["known_reproduced"]))
         unit = [u for u in kunits if u.name == ke["unit"]][0]
         try:
-            pb = playback(unit, ke["harness"], st, tgt, log, jobs, has_stubs=bool(ke["stubs"]))
+            pb = playback(unit, ke["harness"], st, tgt, log, jobs, has_stubs=bool(ke["stubs"]), failed=[obl] + ke["obligations_failed"])
             out += ["", "---- concrete counterexample (kani --concrete-playback=print) ----"] + pb["text"]
             found = pb["native_failed"]
             if pb["native_failed"]:
@@ -65,7 +65,7 @@ def decode_vectors(test_src):
     return vals
 
 
-def playback(unit, harness, st, tgt, log, jobs, has_stubs):
+def playback(unit, harness, st, tgt, log, jobs, has_stubs, failed=None):
     res = {"text": [], "native_ran": False, "native_failed": False}
     filt = f"{unit.modname}::{harness}"
     env = dict(os.environ, CARGO_NET_OFFLINE="true", CARGO_TARGET_DIR=tgt)
@@ -73,12 +73,16 @@ def playback(unit, harness, st, tgt, log, jobs, has_stubs):
            "--concrete-playback=print", "--harness", filt, "--harness-timeout", "900s"]
     log(f"[replay] concrete playback of {filt}")
     r = subprocess.run(cmd, cwd=st, env=env, stdout=subprocess.PIPE, stderr=subprocess.STDOUT, text=True)
-    m = re.search(r"```\s*\n(.*?)```", r.stdout, re.S)
-    if not m:
+    blocks = re.findall(r"```\s*\n(.*?)```", r.stdout, re.S)
+    if not blocks:
         res["text"].append("kani printed no concrete playback test")
         res["text"].append(r.stdout[-1500:])
         return res
-    test_src = m.group(1)
+    # kani prints one test per failed check / satisfied cover: pick the one for a failed obligation
+    want = [b for b in blocks if any(("OBL:" + o) in b for o in (failed or []))]
+    if not want:
+        want = [b for b in blocks if "Check for `cover`" not in b]
+    test_src = (want or blocks)[0]
     res["text"] += test_src.split("\n")
     vals = decode_vectors(test_src)
     if vals:
